@@ -18,7 +18,7 @@
       [merge_batch_into_groups] and the filtering / finalisation / LIMIT part of
       [emit_merged_groups]. *)
 From Coq Require Import ZArith NArith List Bool.
-From Snel Require Import Base.Bytes Base.OrdF64 Model.Order Model.Bucket.
+From Snel Require Import Base.Bytes Base.OrdF64 Gen.Params Model.Order Model.Bucket.
 Import ListNotations.
 Open Scope Z_scope.
 
@@ -107,7 +107,13 @@ Definition upd (k : mkind) (a : agg) (c : cell) : agg :=
   | MCountField, ACount n =>
       match c with CNull => a | _ => ACount (wrap_i64 (n + 1)) end
   | MCountUnique, AUnique s =>
-      AUnique (set_insert (match c with CStr x => x | _ => [] end) s)
+      (* a typed i64 column has no string view: [agg_count_unique_typed_empty] (regenerated
+         from ops.rs) says whether such a cell is counted as "" or as its decimal text *)
+      AUnique (set_insert (match c with
+                           | CStr x => x
+                           | CInt z => if agg_count_unique_typed_empty then [] else dec_of_Z z
+                           | CNull => []
+                           end) s)
   | MTotal, ASum s =>
       match cell_i64 c with Some v => ASum (wrap_i64 (s + v)) | None => a end
   | MAvg, AAvg s n =>
@@ -307,6 +313,46 @@ Definition wire_row (p : plan) (e : gkey * list agg) : gkey * list agg :=
 Definition flow_rows (p : plan) (ng nf : nat) (batches : list (list row)) : list (gkey * list agg) :=
   map (wire_row p) (sink_rows p (concat (map (cells_of_batch ng nf) batches))).
 
+(** ** The sink as it runs, batch by batch.  A batch takes the columnar path
+    ([can_use_columnar_processing]) when every metric is COUNT / TOTAL / AVG and the
+    TOTAL / AVG columns are typed i64.  Without BY / PER the columnar path files its
+    aggregators under a key built with [prehash: 0] while the row path computes the
+    real pre-hash: equal keys with different hashes are two map entries, and
+    [into_partial] keeps only one of them (which one depends on the map's random
+    iteration order).  [agg_columnar_default_prehash_zero] is regenerated from
+    columnar.rs by the translator. *)
+Definition ungrouped (p : plan) : bool :=
+  negb (p_by p) && match p_gran p with None => true | Some _ => false end.
+
+Definition batch_columnar (p : plan) (rows : list row) : bool :=
+  forallb (fun m => match m_kind m with
+                    | MCountAll => true
+                    | MTotal | MAvg => col_typed (column r_fields VNull (m_field m) rows)
+                    | _ => false
+                    end) (p_metrics p).
+
+Record sink_st := { sk_groups : list (gkey * list agg); sk_col : option (list agg) }.
+
+Definition sink_batch (p : plan) (ng nf : nat) (st : sink_st) (rows : list row) : sink_st :=
+  let crs := cells_of_batch ng nf rows in
+  if agg_columnar_default_prehash_zero && ungrouped p && batch_columnar p rows
+  then {| sk_groups := sk_groups st;
+          sk_col := Some (fold_left (upd_all (p_metrics p)) crs
+                            (match sk_col st with Some a => a | None => init_all (p_metrics p) end)) |}
+  else {| sk_groups := fold_left (sink_step p) crs (sk_groups st); sk_col := sk_col st |}.
+
+(** the possible outputs of one flow *)
+Definition flow_alts (p : plan) (ng nf : nat) (batches : list (list row))
+  : list (list (gkey * list agg)) :=
+  let st := fold_left (sink_batch p ng nf) batches {| sk_groups := []; sk_col := None |} in
+  let main := map (wire_row p) (sk_groups st) in
+  match sk_col st with
+  | None => [main]
+  | Some a =>
+      let c := [((None, []), map wire a)] in
+      match sk_groups st with [] => [c] | _ => [main; c] end
+  end.
+
 (** coordinator: merge the rows of all flows by key *)
 Definition coord_step (st : list (gkey * list agg)) (e : gkey * list agg) : list (gkey * list agg) :=
   upsert (fst e)
@@ -332,6 +378,18 @@ Definition merged_groups (p : plan) (ng nf : nat) (flows : list (list (list row)
   map (fun e => (fst e, map finalize (snd e)))
       (filter (fun e => keep_group p (fst e))
               (coord_merge (concat (map (flow_rows p ng nf) flows)))).
+
+Fixpoint choices {A} (alts : list (list A)) : list (list A) :=
+  match alts with
+  | [] => [[]]
+  | a :: r => flat_map (fun x => map (fun rest => x :: rest) (choices r)) a
+  end.
+
+(** every possible result of the pipeline (one per choice of flow outputs) *)
+Definition merged_groups_alts (p : plan) (ng nf : nat) (flows : list (list (list row)))
+  : list (list (gkey * list agg)) :=
+  map (fun ch => filter (fun e => keep_group p (fst e)) (coord_merge (concat ch)))
+      (choices (map (flow_alts p ng nf) flows)).
 
 (** the default output order (no ORDER BY): bucket, then the group strings, compared
     with [scalar_compare]; then OFFSET / LIMIT on groups *)
